@@ -14,7 +14,9 @@
  *       signal, a sanitizer report or a timeout is reported in the result line
  *       and the driver itself survives.
  *       <opts>  = comma separated k=v: m=<0|1> (1: default mmap policy, 0: never),
- *                 t=<seconds per call>, n=<pages read per address space>
+ *                 t=<seconds per call>, n=<pages read per address space>,
+ *                 a=<attr key>:<hex number> (repeatable): number attributes set
+ *                 on the fresh context *before* the open (pre-open history)
  *       <spec>  = <seedpath>[@<trunc-len>][+<off>:<hexbytes>]...   (offsets hex)
  *       -> "F open=<st> ... " (see child_main)
  *
@@ -300,6 +302,11 @@ static void read_pages(kdump_ctx_t *ctx, kdump_addrspace_t as, kdump_addr_t base
 	free(buf);
 }
 
+#define MAX_PRE 8
+static const char *pre_key[MAX_PRE];
+static unsigned long long pre_val[MAX_PRE];
+static int n_pre;
+
 static int child_main(int nfiles, int *fds, int mmap_on, unsigned npages)
 {
 	kdump_ctx_t *ctx;
@@ -324,6 +331,17 @@ static int child_main(int nfiles, int *fds, int mmap_on, unsigned npages)
 		step("set_attr(mmap_policy)");
 		st = kdump_set_attr(ctx, KDUMP_ATTR_FILE_MMAP_POLICY, &a);
 		if (st != KDUMP_OK) emit(" mmap_policy=%s", stname(st));
+	}
+	{
+		int i, nerr = 0;
+		for (i = 0; i < n_pre; ++i) {
+			a.type = KDUMP_NUMBER; a.val.number = pre_val[i];
+			step("set_attr(pre-open)");
+			st = kdump_set_attr(ctx, pre_key[i], &a);
+			if ((unsigned)st > 9) emit(" BADSTATUS@pre-open");
+			if (st != KDUMP_OK) ++nerr;
+		}
+		if (n_pre) emit(" pre=%d/%d", n_pre, nerr);
 	}
 	step("open");
 	st = kdump_open_fdset(ctx, nfiles, fds);
@@ -525,12 +543,22 @@ static void do_file(char *args)
 	int status = 0;
 
 	call_limit = 5;
+	n_pre = 0;
 	if (opts) {
 		char *s2 = NULL, *o;
 		for (o = strtok_r(opts, ",", &s2); o; o = strtok_r(NULL, ",", &s2)) {
 			if (!strncmp(o, "m=", 2)) mmap_on = atoi(o + 2);
 			else if (!strncmp(o, "t=", 2)) call_limit = atoi(o + 2);
 			else if (!strncmp(o, "n=", 2)) npages = atoi(o + 2);
+			else if (!strncmp(o, "a=", 2) && n_pre < MAX_PRE) {
+				char *c = strchr(o + 2, ':');
+				if (c) {
+					*c = 0;
+					pre_key[n_pre] = o + 2;
+					pre_val[n_pre] = hx(c + 1);
+					++n_pre;
+				}
+			}
 		}
 	}
 	while ((tok = strtok_r(NULL, " ", &save)) && nf < 16) {
